@@ -574,9 +574,12 @@ mod verif_c01_recursive_step_huge {
 
     //@ obligation C02 C02.recursive_map_to_2mib.shape_p4_absent.documented_outcome tier=thorough bounded="pool of 7 tables (4 path + 3 allocatable); tree-shaped sparse pre-state (target path, one neighbour word per path table, garbage in allocatable frames); recursive index 300; page-table indices (255,511,0,256)"
     //@ obligation C01 C01.recursive_map_to_2mib.shape_p4_absent.target_translates_to_frame tier=thorough bounded="pool of 7 tables (4 path + 3 allocatable); tree-shaped sparse pre-state (target path, one neighbour word per path table, garbage in allocatable frames); recursive index 300; page-table indices (255,511,0,256)"
+    //@ obligation C11 C11.recursive_map_to_2mib.shape_p4_absent.target_translates_to_frame tier=thorough bounded="pool of 7 tables (4 path + 3 allocatable); tree-shaped sparse pre-state (target path, one neighbour word per path table, garbage in allocatable frames); recursive index 300; page-table indices (255,511,0,256)"
     //@ obligation C01 C01.recursive_map_to_2mib.shape_p4_absent.target_leaf_flags tier=thorough bounded="pool of 7 tables (4 path + 3 allocatable); tree-shaped sparse pre-state (target path, one neighbour word per path table, garbage in allocatable frames); recursive index 300; page-table indices (255,511,0,256)"
+    //@ obligation C11 C11.recursive_map_to_2mib.shape_p4_absent.target_leaf_flags tier=thorough bounded="pool of 7 tables (4 path + 3 allocatable); tree-shaped sparse pre-state (target path, one neighbour word per path table, garbage in allocatable frames); recursive index 300; page-table indices (255,511,0,256)"
     //@ obligation C01 C01.recursive_map_to_2mib.shape_p4_absent.parent_rights_include_requested tier=thorough bounded="pool of 7 tables (4 path + 3 allocatable); tree-shaped sparse pre-state (target path, one neighbour word per path table, garbage in allocatable frames); recursive index 300; page-table indices (255,511,0,256)"
     //@ obligation C01 C01.recursive_map_to_2mib.shape_p4_absent.other_addresses_unchanged tier=thorough bounded="pool of 7 tables (4 path + 3 allocatable); tree-shaped sparse pre-state (target path, one neighbour word per path table, garbage in allocatable frames); recursive index 300; page-table indices (255,511,0,256)"
+    //@ obligation C11 C11.recursive_map_to_2mib.shape_p4_absent.other_addresses_unchanged tier=thorough bounded="pool of 7 tables (4 path + 3 allocatable); tree-shaped sparse pre-state (target path, one neighbour word per path table, garbage in allocatable frames); recursive index 300; page-table indices (255,511,0,256)"
     //@ obligation C01 C01.recursive_map_to_2mib.shape_p4_absent.result_reports_page tier=thorough bounded="pool of 7 tables (4 path + 3 allocatable); tree-shaped sparse pre-state (target path, one neighbour word per path table, garbage in allocatable frames); recursive index 300; page-table indices (255,511,0,256)"
     //@ obligation C11 C11.recursive_map_to_2mib.shape_p4_absent.token_names_page tier=thorough bounded="pool of 7 tables (4 path + 3 allocatable); tree-shaped sparse pre-state (target path, one neighbour word per path table, garbage in allocatable frames); recursive index 300; page-table indices (255,511,0,256)"
     //@ obligation C02 C02.recursive_map_to_2mib.shape_p4_absent.error_leaves_every_mapping tier=thorough bounded="pool of 7 tables (4 path + 3 allocatable); tree-shaped sparse pre-state (target path, one neighbour word per path table, garbage in allocatable frames); recursive index 300; page-table indices (255,511,0,256)"
@@ -597,9 +600,12 @@ mod verif_c01_recursive_step_huge {
 
     //@ obligation C02 C02.recursive_map_to_2mib.shape_p4_absent.documented_outcome tier=thorough bounded="pool of 7 tables (4 path + 3 allocatable); tree-shaped sparse pre-state (target path, one neighbour word per path table, garbage in allocatable frames); recursive index 300; page-table indices (256,0,510,511)"
     //@ obligation C01 C01.recursive_map_to_2mib.shape_p4_absent.target_translates_to_frame tier=thorough bounded="pool of 7 tables (4 path + 3 allocatable); tree-shaped sparse pre-state (target path, one neighbour word per path table, garbage in allocatable frames); recursive index 300; page-table indices (256,0,510,511)"
+    //@ obligation C11 C11.recursive_map_to_2mib.shape_p4_absent.target_translates_to_frame tier=thorough bounded="pool of 7 tables (4 path + 3 allocatable); tree-shaped sparse pre-state (target path, one neighbour word per path table, garbage in allocatable frames); recursive index 300; page-table indices (256,0,510,511)"
     //@ obligation C01 C01.recursive_map_to_2mib.shape_p4_absent.target_leaf_flags tier=thorough bounded="pool of 7 tables (4 path + 3 allocatable); tree-shaped sparse pre-state (target path, one neighbour word per path table, garbage in allocatable frames); recursive index 300; page-table indices (256,0,510,511)"
+    //@ obligation C11 C11.recursive_map_to_2mib.shape_p4_absent.target_leaf_flags tier=thorough bounded="pool of 7 tables (4 path + 3 allocatable); tree-shaped sparse pre-state (target path, one neighbour word per path table, garbage in allocatable frames); recursive index 300; page-table indices (256,0,510,511)"
     //@ obligation C01 C01.recursive_map_to_2mib.shape_p4_absent.parent_rights_include_requested tier=thorough bounded="pool of 7 tables (4 path + 3 allocatable); tree-shaped sparse pre-state (target path, one neighbour word per path table, garbage in allocatable frames); recursive index 300; page-table indices (256,0,510,511)"
     //@ obligation C01 C01.recursive_map_to_2mib.shape_p4_absent.other_addresses_unchanged tier=thorough bounded="pool of 7 tables (4 path + 3 allocatable); tree-shaped sparse pre-state (target path, one neighbour word per path table, garbage in allocatable frames); recursive index 300; page-table indices (256,0,510,511)"
+    //@ obligation C11 C11.recursive_map_to_2mib.shape_p4_absent.other_addresses_unchanged tier=thorough bounded="pool of 7 tables (4 path + 3 allocatable); tree-shaped sparse pre-state (target path, one neighbour word per path table, garbage in allocatable frames); recursive index 300; page-table indices (256,0,510,511)"
     //@ obligation C01 C01.recursive_map_to_2mib.shape_p4_absent.result_reports_page tier=thorough bounded="pool of 7 tables (4 path + 3 allocatable); tree-shaped sparse pre-state (target path, one neighbour word per path table, garbage in allocatable frames); recursive index 300; page-table indices (256,0,510,511)"
     //@ obligation C11 C11.recursive_map_to_2mib.shape_p4_absent.token_names_page tier=thorough bounded="pool of 7 tables (4 path + 3 allocatable); tree-shaped sparse pre-state (target path, one neighbour word per path table, garbage in allocatable frames); recursive index 300; page-table indices (256,0,510,511)"
     //@ obligation C02 C02.recursive_map_to_2mib.shape_p4_absent.error_leaves_every_mapping tier=thorough bounded="pool of 7 tables (4 path + 3 allocatable); tree-shaped sparse pre-state (target path, one neighbour word per path table, garbage in allocatable frames); recursive index 300; page-table indices (256,0,510,511)"
@@ -620,9 +626,12 @@ mod verif_c01_recursive_step_huge {
 
     //@ obligation C02 C02.recursive_map_to_2mib.shape_p3_absent.documented_outcome bounded="pool of 7 tables (4 path + 3 allocatable); tree-shaped sparse pre-state (target path, one neighbour word per path table, garbage in allocatable frames); recursive index 300; page-table indices (255,511,0,256)"
     //@ obligation C01 C01.recursive_map_to_2mib.shape_p3_absent.target_translates_to_frame bounded="pool of 7 tables (4 path + 3 allocatable); tree-shaped sparse pre-state (target path, one neighbour word per path table, garbage in allocatable frames); recursive index 300; page-table indices (255,511,0,256)"
+    //@ obligation C11 C11.recursive_map_to_2mib.shape_p3_absent.target_translates_to_frame bounded="pool of 7 tables (4 path + 3 allocatable); tree-shaped sparse pre-state (target path, one neighbour word per path table, garbage in allocatable frames); recursive index 300; page-table indices (255,511,0,256)"
     //@ obligation C01 C01.recursive_map_to_2mib.shape_p3_absent.target_leaf_flags bounded="pool of 7 tables (4 path + 3 allocatable); tree-shaped sparse pre-state (target path, one neighbour word per path table, garbage in allocatable frames); recursive index 300; page-table indices (255,511,0,256)"
+    //@ obligation C11 C11.recursive_map_to_2mib.shape_p3_absent.target_leaf_flags bounded="pool of 7 tables (4 path + 3 allocatable); tree-shaped sparse pre-state (target path, one neighbour word per path table, garbage in allocatable frames); recursive index 300; page-table indices (255,511,0,256)"
     //@ obligation C01 C01.recursive_map_to_2mib.shape_p3_absent.parent_rights_include_requested bounded="pool of 7 tables (4 path + 3 allocatable); tree-shaped sparse pre-state (target path, one neighbour word per path table, garbage in allocatable frames); recursive index 300; page-table indices (255,511,0,256)"
     //@ obligation C01 C01.recursive_map_to_2mib.shape_p3_absent.other_addresses_unchanged bounded="pool of 7 tables (4 path + 3 allocatable); tree-shaped sparse pre-state (target path, one neighbour word per path table, garbage in allocatable frames); recursive index 300; page-table indices (255,511,0,256)"
+    //@ obligation C11 C11.recursive_map_to_2mib.shape_p3_absent.other_addresses_unchanged bounded="pool of 7 tables (4 path + 3 allocatable); tree-shaped sparse pre-state (target path, one neighbour word per path table, garbage in allocatable frames); recursive index 300; page-table indices (255,511,0,256)"
     //@ obligation C01 C01.recursive_map_to_2mib.shape_p3_absent.result_reports_page bounded="pool of 7 tables (4 path + 3 allocatable); tree-shaped sparse pre-state (target path, one neighbour word per path table, garbage in allocatable frames); recursive index 300; page-table indices (255,511,0,256)"
     //@ obligation C11 C11.recursive_map_to_2mib.shape_p3_absent.token_names_page bounded="pool of 7 tables (4 path + 3 allocatable); tree-shaped sparse pre-state (target path, one neighbour word per path table, garbage in allocatable frames); recursive index 300; page-table indices (255,511,0,256)"
     //@ obligation C02 C02.recursive_map_to_2mib.shape_p3_absent.error_leaves_every_mapping bounded="pool of 7 tables (4 path + 3 allocatable); tree-shaped sparse pre-state (target path, one neighbour word per path table, garbage in allocatable frames); recursive index 300; page-table indices (255,511,0,256)"
@@ -643,9 +652,12 @@ mod verif_c01_recursive_step_huge {
 
     //@ obligation C02 C02.recursive_map_to_2mib.shape_p3_absent.documented_outcome tier=thorough bounded="pool of 7 tables (4 path + 3 allocatable); tree-shaped sparse pre-state (target path, one neighbour word per path table, garbage in allocatable frames); recursive index 300; page-table indices (256,0,510,511)"
     //@ obligation C01 C01.recursive_map_to_2mib.shape_p3_absent.target_translates_to_frame tier=thorough bounded="pool of 7 tables (4 path + 3 allocatable); tree-shaped sparse pre-state (target path, one neighbour word per path table, garbage in allocatable frames); recursive index 300; page-table indices (256,0,510,511)"
+    //@ obligation C11 C11.recursive_map_to_2mib.shape_p3_absent.target_translates_to_frame tier=thorough bounded="pool of 7 tables (4 path + 3 allocatable); tree-shaped sparse pre-state (target path, one neighbour word per path table, garbage in allocatable frames); recursive index 300; page-table indices (256,0,510,511)"
     //@ obligation C01 C01.recursive_map_to_2mib.shape_p3_absent.target_leaf_flags tier=thorough bounded="pool of 7 tables (4 path + 3 allocatable); tree-shaped sparse pre-state (target path, one neighbour word per path table, garbage in allocatable frames); recursive index 300; page-table indices (256,0,510,511)"
+    //@ obligation C11 C11.recursive_map_to_2mib.shape_p3_absent.target_leaf_flags tier=thorough bounded="pool of 7 tables (4 path + 3 allocatable); tree-shaped sparse pre-state (target path, one neighbour word per path table, garbage in allocatable frames); recursive index 300; page-table indices (256,0,510,511)"
     //@ obligation C01 C01.recursive_map_to_2mib.shape_p3_absent.parent_rights_include_requested tier=thorough bounded="pool of 7 tables (4 path + 3 allocatable); tree-shaped sparse pre-state (target path, one neighbour word per path table, garbage in allocatable frames); recursive index 300; page-table indices (256,0,510,511)"
     //@ obligation C01 C01.recursive_map_to_2mib.shape_p3_absent.other_addresses_unchanged tier=thorough bounded="pool of 7 tables (4 path + 3 allocatable); tree-shaped sparse pre-state (target path, one neighbour word per path table, garbage in allocatable frames); recursive index 300; page-table indices (256,0,510,511)"
+    //@ obligation C11 C11.recursive_map_to_2mib.shape_p3_absent.other_addresses_unchanged tier=thorough bounded="pool of 7 tables (4 path + 3 allocatable); tree-shaped sparse pre-state (target path, one neighbour word per path table, garbage in allocatable frames); recursive index 300; page-table indices (256,0,510,511)"
     //@ obligation C01 C01.recursive_map_to_2mib.shape_p3_absent.result_reports_page tier=thorough bounded="pool of 7 tables (4 path + 3 allocatable); tree-shaped sparse pre-state (target path, one neighbour word per path table, garbage in allocatable frames); recursive index 300; page-table indices (256,0,510,511)"
     //@ obligation C11 C11.recursive_map_to_2mib.shape_p3_absent.token_names_page tier=thorough bounded="pool of 7 tables (4 path + 3 allocatable); tree-shaped sparse pre-state (target path, one neighbour word per path table, garbage in allocatable frames); recursive index 300; page-table indices (256,0,510,511)"
     //@ obligation C02 C02.recursive_map_to_2mib.shape_p3_absent.error_leaves_every_mapping tier=thorough bounded="pool of 7 tables (4 path + 3 allocatable); tree-shaped sparse pre-state (target path, one neighbour word per path table, garbage in allocatable frames); recursive index 300; page-table indices (256,0,510,511)"
@@ -702,9 +714,12 @@ mod verif_c01_recursive_step_huge {
 
     //@ obligation C02 C02.recursive_map_to_2mib.shape_p2_absent.documented_outcome tier=thorough bounded="pool of 7 tables (4 path + 3 allocatable); tree-shaped sparse pre-state (target path, one neighbour word per path table, garbage in allocatable frames); recursive index 300; page-table indices (255,511,0,256)"
     //@ obligation C01 C01.recursive_map_to_2mib.shape_p2_absent.target_translates_to_frame tier=thorough bounded="pool of 7 tables (4 path + 3 allocatable); tree-shaped sparse pre-state (target path, one neighbour word per path table, garbage in allocatable frames); recursive index 300; page-table indices (255,511,0,256)"
+    //@ obligation C11 C11.recursive_map_to_2mib.shape_p2_absent.target_translates_to_frame tier=thorough bounded="pool of 7 tables (4 path + 3 allocatable); tree-shaped sparse pre-state (target path, one neighbour word per path table, garbage in allocatable frames); recursive index 300; page-table indices (255,511,0,256)"
     //@ obligation C01 C01.recursive_map_to_2mib.shape_p2_absent.target_leaf_flags tier=thorough bounded="pool of 7 tables (4 path + 3 allocatable); tree-shaped sparse pre-state (target path, one neighbour word per path table, garbage in allocatable frames); recursive index 300; page-table indices (255,511,0,256)"
+    //@ obligation C11 C11.recursive_map_to_2mib.shape_p2_absent.target_leaf_flags tier=thorough bounded="pool of 7 tables (4 path + 3 allocatable); tree-shaped sparse pre-state (target path, one neighbour word per path table, garbage in allocatable frames); recursive index 300; page-table indices (255,511,0,256)"
     //@ obligation C01 C01.recursive_map_to_2mib.shape_p2_absent.parent_rights_include_requested tier=thorough bounded="pool of 7 tables (4 path + 3 allocatable); tree-shaped sparse pre-state (target path, one neighbour word per path table, garbage in allocatable frames); recursive index 300; page-table indices (255,511,0,256)"
     //@ obligation C01 C01.recursive_map_to_2mib.shape_p2_absent.other_addresses_unchanged tier=thorough bounded="pool of 7 tables (4 path + 3 allocatable); tree-shaped sparse pre-state (target path, one neighbour word per path table, garbage in allocatable frames); recursive index 300; page-table indices (255,511,0,256)"
+    //@ obligation C11 C11.recursive_map_to_2mib.shape_p2_absent.other_addresses_unchanged tier=thorough bounded="pool of 7 tables (4 path + 3 allocatable); tree-shaped sparse pre-state (target path, one neighbour word per path table, garbage in allocatable frames); recursive index 300; page-table indices (255,511,0,256)"
     //@ obligation C01 C01.recursive_map_to_2mib.shape_p2_absent.result_reports_page tier=thorough bounded="pool of 7 tables (4 path + 3 allocatable); tree-shaped sparse pre-state (target path, one neighbour word per path table, garbage in allocatable frames); recursive index 300; page-table indices (255,511,0,256)"
     //@ obligation C11 C11.recursive_map_to_2mib.shape_p2_absent.token_names_page tier=thorough bounded="pool of 7 tables (4 path + 3 allocatable); tree-shaped sparse pre-state (target path, one neighbour word per path table, garbage in allocatable frames); recursive index 300; page-table indices (255,511,0,256)"
     //@ obligation C09 C09.recursive_map_to_2mib.shape_p2_absent.only_dictated_slots_change tier=thorough bounded="pool of 7 tables (4 path + 3 allocatable); tree-shaped sparse pre-state (target path, one neighbour word per path table, garbage in allocatable frames); recursive index 300; page-table indices (255,511,0,256)"
@@ -723,9 +738,12 @@ mod verif_c01_recursive_step_huge {
 
     //@ obligation C02 C02.recursive_map_to_2mib.shape_p2_absent.documented_outcome tier=thorough bounded="pool of 7 tables (4 path + 3 allocatable); tree-shaped sparse pre-state (target path, one neighbour word per path table, garbage in allocatable frames); recursive index 300; page-table indices (256,0,510,511)"
     //@ obligation C01 C01.recursive_map_to_2mib.shape_p2_absent.target_translates_to_frame tier=thorough bounded="pool of 7 tables (4 path + 3 allocatable); tree-shaped sparse pre-state (target path, one neighbour word per path table, garbage in allocatable frames); recursive index 300; page-table indices (256,0,510,511)"
+    //@ obligation C11 C11.recursive_map_to_2mib.shape_p2_absent.target_translates_to_frame tier=thorough bounded="pool of 7 tables (4 path + 3 allocatable); tree-shaped sparse pre-state (target path, one neighbour word per path table, garbage in allocatable frames); recursive index 300; page-table indices (256,0,510,511)"
     //@ obligation C01 C01.recursive_map_to_2mib.shape_p2_absent.target_leaf_flags tier=thorough bounded="pool of 7 tables (4 path + 3 allocatable); tree-shaped sparse pre-state (target path, one neighbour word per path table, garbage in allocatable frames); recursive index 300; page-table indices (256,0,510,511)"
+    //@ obligation C11 C11.recursive_map_to_2mib.shape_p2_absent.target_leaf_flags tier=thorough bounded="pool of 7 tables (4 path + 3 allocatable); tree-shaped sparse pre-state (target path, one neighbour word per path table, garbage in allocatable frames); recursive index 300; page-table indices (256,0,510,511)"
     //@ obligation C01 C01.recursive_map_to_2mib.shape_p2_absent.parent_rights_include_requested tier=thorough bounded="pool of 7 tables (4 path + 3 allocatable); tree-shaped sparse pre-state (target path, one neighbour word per path table, garbage in allocatable frames); recursive index 300; page-table indices (256,0,510,511)"
     //@ obligation C01 C01.recursive_map_to_2mib.shape_p2_absent.other_addresses_unchanged tier=thorough bounded="pool of 7 tables (4 path + 3 allocatable); tree-shaped sparse pre-state (target path, one neighbour word per path table, garbage in allocatable frames); recursive index 300; page-table indices (256,0,510,511)"
+    //@ obligation C11 C11.recursive_map_to_2mib.shape_p2_absent.other_addresses_unchanged tier=thorough bounded="pool of 7 tables (4 path + 3 allocatable); tree-shaped sparse pre-state (target path, one neighbour word per path table, garbage in allocatable frames); recursive index 300; page-table indices (256,0,510,511)"
     //@ obligation C01 C01.recursive_map_to_2mib.shape_p2_absent.result_reports_page tier=thorough bounded="pool of 7 tables (4 path + 3 allocatable); tree-shaped sparse pre-state (target path, one neighbour word per path table, garbage in allocatable frames); recursive index 300; page-table indices (256,0,510,511)"
     //@ obligation C11 C11.recursive_map_to_2mib.shape_p2_absent.token_names_page tier=thorough bounded="pool of 7 tables (4 path + 3 allocatable); tree-shaped sparse pre-state (target path, one neighbour word per path table, garbage in allocatable frames); recursive index 300; page-table indices (256,0,510,511)"
     //@ obligation C09 C09.recursive_map_to_2mib.shape_p2_absent.only_dictated_slots_change tier=thorough bounded="pool of 7 tables (4 path + 3 allocatable); tree-shaped sparse pre-state (target path, one neighbour word per path table, garbage in allocatable frames); recursive index 300; page-table indices (256,0,510,511)"
@@ -816,9 +834,12 @@ mod verif_c01_recursive_step_huge {
 
     //@ obligation C02 C02.recursive_map_to_1gib.shape_p4_absent.documented_outcome tier=thorough bounded="pool of 7 tables (4 path + 3 allocatable); tree-shaped sparse pre-state (target path, one neighbour word per path table, garbage in allocatable frames); recursive index 300; page-table indices (255,511,0,256)"
     //@ obligation C01 C01.recursive_map_to_1gib.shape_p4_absent.target_translates_to_frame tier=thorough bounded="pool of 7 tables (4 path + 3 allocatable); tree-shaped sparse pre-state (target path, one neighbour word per path table, garbage in allocatable frames); recursive index 300; page-table indices (255,511,0,256)"
+    //@ obligation C11 C11.recursive_map_to_1gib.shape_p4_absent.target_translates_to_frame tier=thorough bounded="pool of 7 tables (4 path + 3 allocatable); tree-shaped sparse pre-state (target path, one neighbour word per path table, garbage in allocatable frames); recursive index 300; page-table indices (255,511,0,256)"
     //@ obligation C01 C01.recursive_map_to_1gib.shape_p4_absent.target_leaf_flags tier=thorough bounded="pool of 7 tables (4 path + 3 allocatable); tree-shaped sparse pre-state (target path, one neighbour word per path table, garbage in allocatable frames); recursive index 300; page-table indices (255,511,0,256)"
+    //@ obligation C11 C11.recursive_map_to_1gib.shape_p4_absent.target_leaf_flags tier=thorough bounded="pool of 7 tables (4 path + 3 allocatable); tree-shaped sparse pre-state (target path, one neighbour word per path table, garbage in allocatable frames); recursive index 300; page-table indices (255,511,0,256)"
     //@ obligation C01 C01.recursive_map_to_1gib.shape_p4_absent.parent_rights_include_requested tier=thorough bounded="pool of 7 tables (4 path + 3 allocatable); tree-shaped sparse pre-state (target path, one neighbour word per path table, garbage in allocatable frames); recursive index 300; page-table indices (255,511,0,256)"
     //@ obligation C01 C01.recursive_map_to_1gib.shape_p4_absent.other_addresses_unchanged tier=thorough bounded="pool of 7 tables (4 path + 3 allocatable); tree-shaped sparse pre-state (target path, one neighbour word per path table, garbage in allocatable frames); recursive index 300; page-table indices (255,511,0,256)"
+    //@ obligation C11 C11.recursive_map_to_1gib.shape_p4_absent.other_addresses_unchanged tier=thorough bounded="pool of 7 tables (4 path + 3 allocatable); tree-shaped sparse pre-state (target path, one neighbour word per path table, garbage in allocatable frames); recursive index 300; page-table indices (255,511,0,256)"
     //@ obligation C01 C01.recursive_map_to_1gib.shape_p4_absent.result_reports_page tier=thorough bounded="pool of 7 tables (4 path + 3 allocatable); tree-shaped sparse pre-state (target path, one neighbour word per path table, garbage in allocatable frames); recursive index 300; page-table indices (255,511,0,256)"
     //@ obligation C11 C11.recursive_map_to_1gib.shape_p4_absent.token_names_page tier=thorough bounded="pool of 7 tables (4 path + 3 allocatable); tree-shaped sparse pre-state (target path, one neighbour word per path table, garbage in allocatable frames); recursive index 300; page-table indices (255,511,0,256)"
     //@ obligation C02 C02.recursive_map_to_1gib.shape_p4_absent.error_leaves_every_mapping tier=thorough bounded="pool of 7 tables (4 path + 3 allocatable); tree-shaped sparse pre-state (target path, one neighbour word per path table, garbage in allocatable frames); recursive index 300; page-table indices (255,511,0,256)"
@@ -839,9 +860,12 @@ mod verif_c01_recursive_step_huge {
 
     //@ obligation C02 C02.recursive_map_to_1gib.shape_p4_absent.documented_outcome tier=thorough bounded="pool of 7 tables (4 path + 3 allocatable); tree-shaped sparse pre-state (target path, one neighbour word per path table, garbage in allocatable frames); recursive index 300; page-table indices (256,0,510,511)"
     //@ obligation C01 C01.recursive_map_to_1gib.shape_p4_absent.target_translates_to_frame tier=thorough bounded="pool of 7 tables (4 path + 3 allocatable); tree-shaped sparse pre-state (target path, one neighbour word per path table, garbage in allocatable frames); recursive index 300; page-table indices (256,0,510,511)"
+    //@ obligation C11 C11.recursive_map_to_1gib.shape_p4_absent.target_translates_to_frame tier=thorough bounded="pool of 7 tables (4 path + 3 allocatable); tree-shaped sparse pre-state (target path, one neighbour word per path table, garbage in allocatable frames); recursive index 300; page-table indices (256,0,510,511)"
     //@ obligation C01 C01.recursive_map_to_1gib.shape_p4_absent.target_leaf_flags tier=thorough bounded="pool of 7 tables (4 path + 3 allocatable); tree-shaped sparse pre-state (target path, one neighbour word per path table, garbage in allocatable frames); recursive index 300; page-table indices (256,0,510,511)"
+    //@ obligation C11 C11.recursive_map_to_1gib.shape_p4_absent.target_leaf_flags tier=thorough bounded="pool of 7 tables (4 path + 3 allocatable); tree-shaped sparse pre-state (target path, one neighbour word per path table, garbage in allocatable frames); recursive index 300; page-table indices (256,0,510,511)"
     //@ obligation C01 C01.recursive_map_to_1gib.shape_p4_absent.parent_rights_include_requested tier=thorough bounded="pool of 7 tables (4 path + 3 allocatable); tree-shaped sparse pre-state (target path, one neighbour word per path table, garbage in allocatable frames); recursive index 300; page-table indices (256,0,510,511)"
     //@ obligation C01 C01.recursive_map_to_1gib.shape_p4_absent.other_addresses_unchanged tier=thorough bounded="pool of 7 tables (4 path + 3 allocatable); tree-shaped sparse pre-state (target path, one neighbour word per path table, garbage in allocatable frames); recursive index 300; page-table indices (256,0,510,511)"
+    //@ obligation C11 C11.recursive_map_to_1gib.shape_p4_absent.other_addresses_unchanged tier=thorough bounded="pool of 7 tables (4 path + 3 allocatable); tree-shaped sparse pre-state (target path, one neighbour word per path table, garbage in allocatable frames); recursive index 300; page-table indices (256,0,510,511)"
     //@ obligation C01 C01.recursive_map_to_1gib.shape_p4_absent.result_reports_page tier=thorough bounded="pool of 7 tables (4 path + 3 allocatable); tree-shaped sparse pre-state (target path, one neighbour word per path table, garbage in allocatable frames); recursive index 300; page-table indices (256,0,510,511)"
     //@ obligation C11 C11.recursive_map_to_1gib.shape_p4_absent.token_names_page tier=thorough bounded="pool of 7 tables (4 path + 3 allocatable); tree-shaped sparse pre-state (target path, one neighbour word per path table, garbage in allocatable frames); recursive index 300; page-table indices (256,0,510,511)"
     //@ obligation C02 C02.recursive_map_to_1gib.shape_p4_absent.error_leaves_every_mapping tier=thorough bounded="pool of 7 tables (4 path + 3 allocatable); tree-shaped sparse pre-state (target path, one neighbour word per path table, garbage in allocatable frames); recursive index 300; page-table indices (256,0,510,511)"
@@ -862,9 +886,12 @@ mod verif_c01_recursive_step_huge {
 
     //@ obligation C02 C02.recursive_map_to_1gib.shape_p3_absent.documented_outcome tier=thorough bounded="pool of 7 tables (4 path + 3 allocatable); tree-shaped sparse pre-state (target path, one neighbour word per path table, garbage in allocatable frames); recursive index 300; page-table indices (255,511,0,256)"
     //@ obligation C01 C01.recursive_map_to_1gib.shape_p3_absent.target_translates_to_frame tier=thorough bounded="pool of 7 tables (4 path + 3 allocatable); tree-shaped sparse pre-state (target path, one neighbour word per path table, garbage in allocatable frames); recursive index 300; page-table indices (255,511,0,256)"
+    //@ obligation C11 C11.recursive_map_to_1gib.shape_p3_absent.target_translates_to_frame tier=thorough bounded="pool of 7 tables (4 path + 3 allocatable); tree-shaped sparse pre-state (target path, one neighbour word per path table, garbage in allocatable frames); recursive index 300; page-table indices (255,511,0,256)"
     //@ obligation C01 C01.recursive_map_to_1gib.shape_p3_absent.target_leaf_flags tier=thorough bounded="pool of 7 tables (4 path + 3 allocatable); tree-shaped sparse pre-state (target path, one neighbour word per path table, garbage in allocatable frames); recursive index 300; page-table indices (255,511,0,256)"
+    //@ obligation C11 C11.recursive_map_to_1gib.shape_p3_absent.target_leaf_flags tier=thorough bounded="pool of 7 tables (4 path + 3 allocatable); tree-shaped sparse pre-state (target path, one neighbour word per path table, garbage in allocatable frames); recursive index 300; page-table indices (255,511,0,256)"
     //@ obligation C01 C01.recursive_map_to_1gib.shape_p3_absent.parent_rights_include_requested tier=thorough bounded="pool of 7 tables (4 path + 3 allocatable); tree-shaped sparse pre-state (target path, one neighbour word per path table, garbage in allocatable frames); recursive index 300; page-table indices (255,511,0,256)"
     //@ obligation C01 C01.recursive_map_to_1gib.shape_p3_absent.other_addresses_unchanged tier=thorough bounded="pool of 7 tables (4 path + 3 allocatable); tree-shaped sparse pre-state (target path, one neighbour word per path table, garbage in allocatable frames); recursive index 300; page-table indices (255,511,0,256)"
+    //@ obligation C11 C11.recursive_map_to_1gib.shape_p3_absent.other_addresses_unchanged tier=thorough bounded="pool of 7 tables (4 path + 3 allocatable); tree-shaped sparse pre-state (target path, one neighbour word per path table, garbage in allocatable frames); recursive index 300; page-table indices (255,511,0,256)"
     //@ obligation C01 C01.recursive_map_to_1gib.shape_p3_absent.result_reports_page tier=thorough bounded="pool of 7 tables (4 path + 3 allocatable); tree-shaped sparse pre-state (target path, one neighbour word per path table, garbage in allocatable frames); recursive index 300; page-table indices (255,511,0,256)"
     //@ obligation C11 C11.recursive_map_to_1gib.shape_p3_absent.token_names_page tier=thorough bounded="pool of 7 tables (4 path + 3 allocatable); tree-shaped sparse pre-state (target path, one neighbour word per path table, garbage in allocatable frames); recursive index 300; page-table indices (255,511,0,256)"
     //@ obligation C09 C09.recursive_map_to_1gib.shape_p3_absent.only_dictated_slots_change tier=thorough bounded="pool of 7 tables (4 path + 3 allocatable); tree-shaped sparse pre-state (target path, one neighbour word per path table, garbage in allocatable frames); recursive index 300; page-table indices (255,511,0,256)"
@@ -883,9 +910,12 @@ mod verif_c01_recursive_step_huge {
 
     //@ obligation C02 C02.recursive_map_to_1gib.shape_p3_absent.documented_outcome bounded="pool of 7 tables (4 path + 3 allocatable); tree-shaped sparse pre-state (target path, one neighbour word per path table, garbage in allocatable frames); recursive index 300; page-table indices (256,0,510,511)"
     //@ obligation C01 C01.recursive_map_to_1gib.shape_p3_absent.target_translates_to_frame bounded="pool of 7 tables (4 path + 3 allocatable); tree-shaped sparse pre-state (target path, one neighbour word per path table, garbage in allocatable frames); recursive index 300; page-table indices (256,0,510,511)"
+    //@ obligation C11 C11.recursive_map_to_1gib.shape_p3_absent.target_translates_to_frame bounded="pool of 7 tables (4 path + 3 allocatable); tree-shaped sparse pre-state (target path, one neighbour word per path table, garbage in allocatable frames); recursive index 300; page-table indices (256,0,510,511)"
     //@ obligation C01 C01.recursive_map_to_1gib.shape_p3_absent.target_leaf_flags bounded="pool of 7 tables (4 path + 3 allocatable); tree-shaped sparse pre-state (target path, one neighbour word per path table, garbage in allocatable frames); recursive index 300; page-table indices (256,0,510,511)"
+    //@ obligation C11 C11.recursive_map_to_1gib.shape_p3_absent.target_leaf_flags bounded="pool of 7 tables (4 path + 3 allocatable); tree-shaped sparse pre-state (target path, one neighbour word per path table, garbage in allocatable frames); recursive index 300; page-table indices (256,0,510,511)"
     //@ obligation C01 C01.recursive_map_to_1gib.shape_p3_absent.parent_rights_include_requested bounded="pool of 7 tables (4 path + 3 allocatable); tree-shaped sparse pre-state (target path, one neighbour word per path table, garbage in allocatable frames); recursive index 300; page-table indices (256,0,510,511)"
     //@ obligation C01 C01.recursive_map_to_1gib.shape_p3_absent.other_addresses_unchanged bounded="pool of 7 tables (4 path + 3 allocatable); tree-shaped sparse pre-state (target path, one neighbour word per path table, garbage in allocatable frames); recursive index 300; page-table indices (256,0,510,511)"
+    //@ obligation C11 C11.recursive_map_to_1gib.shape_p3_absent.other_addresses_unchanged bounded="pool of 7 tables (4 path + 3 allocatable); tree-shaped sparse pre-state (target path, one neighbour word per path table, garbage in allocatable frames); recursive index 300; page-table indices (256,0,510,511)"
     //@ obligation C01 C01.recursive_map_to_1gib.shape_p3_absent.result_reports_page bounded="pool of 7 tables (4 path + 3 allocatable); tree-shaped sparse pre-state (target path, one neighbour word per path table, garbage in allocatable frames); recursive index 300; page-table indices (256,0,510,511)"
     //@ obligation C11 C11.recursive_map_to_1gib.shape_p3_absent.token_names_page bounded="pool of 7 tables (4 path + 3 allocatable); tree-shaped sparse pre-state (target path, one neighbour word per path table, garbage in allocatable frames); recursive index 300; page-table indices (256,0,510,511)"
     //@ obligation C09 C09.recursive_map_to_1gib.shape_p3_absent.only_dictated_slots_change bounded="pool of 7 tables (4 path + 3 allocatable); tree-shaped sparse pre-state (target path, one neighbour word per path table, garbage in allocatable frames); recursive index 300; page-table indices (256,0,510,511)"
@@ -1097,7 +1127,9 @@ mod verif_c01_recursive_step_huge {
     //@ obligation C02 C02.recursive_unmap_2mib.shape_p2_huge.documented_outcome tier=thorough bounded="pool of 7 tables (4 path + 3 allocatable); tree-shaped sparse pre-state (target path, one neighbour word per path table, garbage in allocatable frames); recursive index 300; page-table indices (255,511,0,256)"
     //@ obligation C01 C01.recursive_unmap_2mib.shape_p2_huge.returns_mapped_frame tier=thorough bounded="pool of 7 tables (4 path + 3 allocatable); tree-shaped sparse pre-state (target path, one neighbour word per path table, garbage in allocatable frames); recursive index 300; page-table indices (255,511,0,256)"
     //@ obligation C01 C01.recursive_unmap_2mib.shape_p2_huge.target_not_mapped_after tier=thorough bounded="pool of 7 tables (4 path + 3 allocatable); tree-shaped sparse pre-state (target path, one neighbour word per path table, garbage in allocatable frames); recursive index 300; page-table indices (255,511,0,256)"
+    //@ obligation C11 C11.recursive_unmap_2mib.shape_p2_huge.target_not_mapped_after tier=thorough bounded="pool of 7 tables (4 path + 3 allocatable); tree-shaped sparse pre-state (target path, one neighbour word per path table, garbage in allocatable frames); recursive index 300; page-table indices (255,511,0,256)"
     //@ obligation C01 C01.recursive_unmap_2mib.shape_p2_huge.other_addresses_unchanged tier=thorough bounded="pool of 7 tables (4 path + 3 allocatable); tree-shaped sparse pre-state (target path, one neighbour word per path table, garbage in allocatable frames); recursive index 300; page-table indices (255,511,0,256)"
+    //@ obligation C11 C11.recursive_unmap_2mib.shape_p2_huge.other_addresses_unchanged tier=thorough bounded="pool of 7 tables (4 path + 3 allocatable); tree-shaped sparse pre-state (target path, one neighbour word per path table, garbage in allocatable frames); recursive index 300; page-table indices (255,511,0,256)"
     //@ obligation C01 C01.recursive_unmap_2mib.shape_p2_huge.result_reports_page tier=thorough bounded="pool of 7 tables (4 path + 3 allocatable); tree-shaped sparse pre-state (target path, one neighbour word per path table, garbage in allocatable frames); recursive index 300; page-table indices (255,511,0,256)"
     //@ obligation C11 C11.recursive_unmap_2mib.shape_p2_huge.token_names_page tier=thorough bounded="pool of 7 tables (4 path + 3 allocatable); tree-shaped sparse pre-state (target path, one neighbour word per path table, garbage in allocatable frames); recursive index 300; page-table indices (255,511,0,256)"
     //@ obligation C09 C09.recursive_unmap_2mib.shape_p2_huge.only_dictated_slots_change tier=thorough bounded="pool of 7 tables (4 path + 3 allocatable); tree-shaped sparse pre-state (target path, one neighbour word per path table, garbage in allocatable frames); recursive index 300; page-table indices (255,511,0,256)"
@@ -1116,7 +1148,9 @@ mod verif_c01_recursive_step_huge {
     //@ obligation C02 C02.recursive_unmap_2mib.shape_p2_huge.documented_outcome bounded="pool of 7 tables (4 path + 3 allocatable); tree-shaped sparse pre-state (target path, one neighbour word per path table, garbage in allocatable frames); recursive index 300; page-table indices (256,0,510,511)"
     //@ obligation C01 C01.recursive_unmap_2mib.shape_p2_huge.returns_mapped_frame bounded="pool of 7 tables (4 path + 3 allocatable); tree-shaped sparse pre-state (target path, one neighbour word per path table, garbage in allocatable frames); recursive index 300; page-table indices (256,0,510,511)"
     //@ obligation C01 C01.recursive_unmap_2mib.shape_p2_huge.target_not_mapped_after bounded="pool of 7 tables (4 path + 3 allocatable); tree-shaped sparse pre-state (target path, one neighbour word per path table, garbage in allocatable frames); recursive index 300; page-table indices (256,0,510,511)"
+    //@ obligation C11 C11.recursive_unmap_2mib.shape_p2_huge.target_not_mapped_after bounded="pool of 7 tables (4 path + 3 allocatable); tree-shaped sparse pre-state (target path, one neighbour word per path table, garbage in allocatable frames); recursive index 300; page-table indices (256,0,510,511)"
     //@ obligation C01 C01.recursive_unmap_2mib.shape_p2_huge.other_addresses_unchanged bounded="pool of 7 tables (4 path + 3 allocatable); tree-shaped sparse pre-state (target path, one neighbour word per path table, garbage in allocatable frames); recursive index 300; page-table indices (256,0,510,511)"
+    //@ obligation C11 C11.recursive_unmap_2mib.shape_p2_huge.other_addresses_unchanged bounded="pool of 7 tables (4 path + 3 allocatable); tree-shaped sparse pre-state (target path, one neighbour word per path table, garbage in allocatable frames); recursive index 300; page-table indices (256,0,510,511)"
     //@ obligation C01 C01.recursive_unmap_2mib.shape_p2_huge.result_reports_page bounded="pool of 7 tables (4 path + 3 allocatable); tree-shaped sparse pre-state (target path, one neighbour word per path table, garbage in allocatable frames); recursive index 300; page-table indices (256,0,510,511)"
     //@ obligation C11 C11.recursive_unmap_2mib.shape_p2_huge.token_names_page bounded="pool of 7 tables (4 path + 3 allocatable); tree-shaped sparse pre-state (target path, one neighbour word per path table, garbage in allocatable frames); recursive index 300; page-table indices (256,0,510,511)"
     //@ obligation C09 C09.recursive_unmap_2mib.shape_p2_huge.only_dictated_slots_change bounded="pool of 7 tables (4 path + 3 allocatable); tree-shaped sparse pre-state (target path, one neighbour word per path table, garbage in allocatable frames); recursive index 300; page-table indices (256,0,510,511)"
@@ -1167,7 +1201,9 @@ mod verif_c01_recursive_step_huge {
     //@ obligation C02 C02.recursive_unmap_2mib.shape_sym.documented_outcome tier=thorough bounded="pool of 7 tables (4 path + 3 allocatable); tree-shaped sparse pre-state (target path, one neighbour word per path table, garbage in allocatable frames); recursive index 300; page-table indices (255,511,0,256)"
     //@ obligation C01 C01.recursive_unmap_2mib.shape_sym.returns_mapped_frame tier=thorough bounded="pool of 7 tables (4 path + 3 allocatable); tree-shaped sparse pre-state (target path, one neighbour word per path table, garbage in allocatable frames); recursive index 300; page-table indices (255,511,0,256)"
     //@ obligation C01 C01.recursive_unmap_2mib.shape_sym.target_not_mapped_after tier=thorough bounded="pool of 7 tables (4 path + 3 allocatable); tree-shaped sparse pre-state (target path, one neighbour word per path table, garbage in allocatable frames); recursive index 300; page-table indices (255,511,0,256)"
+    //@ obligation C11 C11.recursive_unmap_2mib.shape_sym.target_not_mapped_after tier=thorough bounded="pool of 7 tables (4 path + 3 allocatable); tree-shaped sparse pre-state (target path, one neighbour word per path table, garbage in allocatable frames); recursive index 300; page-table indices (255,511,0,256)"
     //@ obligation C01 C01.recursive_unmap_2mib.shape_sym.other_addresses_unchanged tier=thorough bounded="pool of 7 tables (4 path + 3 allocatable); tree-shaped sparse pre-state (target path, one neighbour word per path table, garbage in allocatable frames); recursive index 300; page-table indices (255,511,0,256)"
+    //@ obligation C11 C11.recursive_unmap_2mib.shape_sym.other_addresses_unchanged tier=thorough bounded="pool of 7 tables (4 path + 3 allocatable); tree-shaped sparse pre-state (target path, one neighbour word per path table, garbage in allocatable frames); recursive index 300; page-table indices (255,511,0,256)"
     //@ obligation C01 C01.recursive_unmap_2mib.shape_sym.result_reports_page tier=thorough bounded="pool of 7 tables (4 path + 3 allocatable); tree-shaped sparse pre-state (target path, one neighbour word per path table, garbage in allocatable frames); recursive index 300; page-table indices (255,511,0,256)"
     //@ obligation C11 C11.recursive_unmap_2mib.shape_sym.token_names_page tier=thorough bounded="pool of 7 tables (4 path + 3 allocatable); tree-shaped sparse pre-state (target path, one neighbour word per path table, garbage in allocatable frames); recursive index 300; page-table indices (255,511,0,256)"
     //@ obligation C02 C02.recursive_unmap_2mib.shape_sym.error_leaves_every_mapping tier=thorough bounded="pool of 7 tables (4 path + 3 allocatable); tree-shaped sparse pre-state (target path, one neighbour word per path table, garbage in allocatable frames); recursive index 300; page-table indices (255,511,0,256)"
@@ -1187,7 +1223,9 @@ mod verif_c01_recursive_step_huge {
     //@ obligation C02 C02.recursive_unmap_2mib.shape_sym.documented_outcome bounded="pool of 7 tables (4 path + 3 allocatable); tree-shaped sparse pre-state (target path, one neighbour word per path table, garbage in allocatable frames); recursive index 300; page-table indices (256,0,510,511)"
     //@ obligation C01 C01.recursive_unmap_2mib.shape_sym.returns_mapped_frame bounded="pool of 7 tables (4 path + 3 allocatable); tree-shaped sparse pre-state (target path, one neighbour word per path table, garbage in allocatable frames); recursive index 300; page-table indices (256,0,510,511)"
     //@ obligation C01 C01.recursive_unmap_2mib.shape_sym.target_not_mapped_after bounded="pool of 7 tables (4 path + 3 allocatable); tree-shaped sparse pre-state (target path, one neighbour word per path table, garbage in allocatable frames); recursive index 300; page-table indices (256,0,510,511)"
+    //@ obligation C11 C11.recursive_unmap_2mib.shape_sym.target_not_mapped_after bounded="pool of 7 tables (4 path + 3 allocatable); tree-shaped sparse pre-state (target path, one neighbour word per path table, garbage in allocatable frames); recursive index 300; page-table indices (256,0,510,511)"
     //@ obligation C01 C01.recursive_unmap_2mib.shape_sym.other_addresses_unchanged bounded="pool of 7 tables (4 path + 3 allocatable); tree-shaped sparse pre-state (target path, one neighbour word per path table, garbage in allocatable frames); recursive index 300; page-table indices (256,0,510,511)"
+    //@ obligation C11 C11.recursive_unmap_2mib.shape_sym.other_addresses_unchanged bounded="pool of 7 tables (4 path + 3 allocatable); tree-shaped sparse pre-state (target path, one neighbour word per path table, garbage in allocatable frames); recursive index 300; page-table indices (256,0,510,511)"
     //@ obligation C01 C01.recursive_unmap_2mib.shape_sym.result_reports_page bounded="pool of 7 tables (4 path + 3 allocatable); tree-shaped sparse pre-state (target path, one neighbour word per path table, garbage in allocatable frames); recursive index 300; page-table indices (256,0,510,511)"
     //@ obligation C11 C11.recursive_unmap_2mib.shape_sym.token_names_page bounded="pool of 7 tables (4 path + 3 allocatable); tree-shaped sparse pre-state (target path, one neighbour word per path table, garbage in allocatable frames); recursive index 300; page-table indices (256,0,510,511)"
     //@ obligation C02 C02.recursive_unmap_2mib.shape_sym.error_leaves_every_mapping bounded="pool of 7 tables (4 path + 3 allocatable); tree-shaped sparse pre-state (target path, one neighbour word per path table, garbage in allocatable frames); recursive index 300; page-table indices (256,0,510,511)"
@@ -1265,7 +1303,9 @@ mod verif_c01_recursive_step_huge {
     //@ obligation C02 C02.recursive_unmap_1gib.shape_p3_huge.documented_outcome tier=thorough bounded="pool of 7 tables (4 path + 3 allocatable); tree-shaped sparse pre-state (target path, one neighbour word per path table, garbage in allocatable frames); recursive index 300; page-table indices (255,511,0,256)"
     //@ obligation C01 C01.recursive_unmap_1gib.shape_p3_huge.returns_mapped_frame tier=thorough bounded="pool of 7 tables (4 path + 3 allocatable); tree-shaped sparse pre-state (target path, one neighbour word per path table, garbage in allocatable frames); recursive index 300; page-table indices (255,511,0,256)"
     //@ obligation C01 C01.recursive_unmap_1gib.shape_p3_huge.target_not_mapped_after tier=thorough bounded="pool of 7 tables (4 path + 3 allocatable); tree-shaped sparse pre-state (target path, one neighbour word per path table, garbage in allocatable frames); recursive index 300; page-table indices (255,511,0,256)"
+    //@ obligation C11 C11.recursive_unmap_1gib.shape_p3_huge.target_not_mapped_after tier=thorough bounded="pool of 7 tables (4 path + 3 allocatable); tree-shaped sparse pre-state (target path, one neighbour word per path table, garbage in allocatable frames); recursive index 300; page-table indices (255,511,0,256)"
     //@ obligation C01 C01.recursive_unmap_1gib.shape_p3_huge.other_addresses_unchanged tier=thorough bounded="pool of 7 tables (4 path + 3 allocatable); tree-shaped sparse pre-state (target path, one neighbour word per path table, garbage in allocatable frames); recursive index 300; page-table indices (255,511,0,256)"
+    //@ obligation C11 C11.recursive_unmap_1gib.shape_p3_huge.other_addresses_unchanged tier=thorough bounded="pool of 7 tables (4 path + 3 allocatable); tree-shaped sparse pre-state (target path, one neighbour word per path table, garbage in allocatable frames); recursive index 300; page-table indices (255,511,0,256)"
     //@ obligation C01 C01.recursive_unmap_1gib.shape_p3_huge.result_reports_page tier=thorough bounded="pool of 7 tables (4 path + 3 allocatable); tree-shaped sparse pre-state (target path, one neighbour word per path table, garbage in allocatable frames); recursive index 300; page-table indices (255,511,0,256)"
     //@ obligation C11 C11.recursive_unmap_1gib.shape_p3_huge.token_names_page tier=thorough bounded="pool of 7 tables (4 path + 3 allocatable); tree-shaped sparse pre-state (target path, one neighbour word per path table, garbage in allocatable frames); recursive index 300; page-table indices (255,511,0,256)"
     //@ obligation C09 C09.recursive_unmap_1gib.shape_p3_huge.only_dictated_slots_change tier=thorough bounded="pool of 7 tables (4 path + 3 allocatable); tree-shaped sparse pre-state (target path, one neighbour word per path table, garbage in allocatable frames); recursive index 300; page-table indices (255,511,0,256)"
@@ -1284,7 +1324,9 @@ mod verif_c01_recursive_step_huge {
     //@ obligation C02 C02.recursive_unmap_1gib.shape_p3_huge.documented_outcome bounded="pool of 7 tables (4 path + 3 allocatable); tree-shaped sparse pre-state (target path, one neighbour word per path table, garbage in allocatable frames); recursive index 300; page-table indices (256,0,510,511)"
     //@ obligation C01 C01.recursive_unmap_1gib.shape_p3_huge.returns_mapped_frame bounded="pool of 7 tables (4 path + 3 allocatable); tree-shaped sparse pre-state (target path, one neighbour word per path table, garbage in allocatable frames); recursive index 300; page-table indices (256,0,510,511)"
     //@ obligation C01 C01.recursive_unmap_1gib.shape_p3_huge.target_not_mapped_after bounded="pool of 7 tables (4 path + 3 allocatable); tree-shaped sparse pre-state (target path, one neighbour word per path table, garbage in allocatable frames); recursive index 300; page-table indices (256,0,510,511)"
+    //@ obligation C11 C11.recursive_unmap_1gib.shape_p3_huge.target_not_mapped_after bounded="pool of 7 tables (4 path + 3 allocatable); tree-shaped sparse pre-state (target path, one neighbour word per path table, garbage in allocatable frames); recursive index 300; page-table indices (256,0,510,511)"
     //@ obligation C01 C01.recursive_unmap_1gib.shape_p3_huge.other_addresses_unchanged bounded="pool of 7 tables (4 path + 3 allocatable); tree-shaped sparse pre-state (target path, one neighbour word per path table, garbage in allocatable frames); recursive index 300; page-table indices (256,0,510,511)"
+    //@ obligation C11 C11.recursive_unmap_1gib.shape_p3_huge.other_addresses_unchanged bounded="pool of 7 tables (4 path + 3 allocatable); tree-shaped sparse pre-state (target path, one neighbour word per path table, garbage in allocatable frames); recursive index 300; page-table indices (256,0,510,511)"
     //@ obligation C01 C01.recursive_unmap_1gib.shape_p3_huge.result_reports_page bounded="pool of 7 tables (4 path + 3 allocatable); tree-shaped sparse pre-state (target path, one neighbour word per path table, garbage in allocatable frames); recursive index 300; page-table indices (256,0,510,511)"
     //@ obligation C11 C11.recursive_unmap_1gib.shape_p3_huge.token_names_page bounded="pool of 7 tables (4 path + 3 allocatable); tree-shaped sparse pre-state (target path, one neighbour word per path table, garbage in allocatable frames); recursive index 300; page-table indices (256,0,510,511)"
     //@ obligation C09 C09.recursive_unmap_1gib.shape_p3_huge.only_dictated_slots_change bounded="pool of 7 tables (4 path + 3 allocatable); tree-shaped sparse pre-state (target path, one neighbour word per path table, garbage in allocatable frames); recursive index 300; page-table indices (256,0,510,511)"
@@ -1335,7 +1377,9 @@ mod verif_c01_recursive_step_huge {
     //@ obligation C02 C02.recursive_unmap_1gib.shape_sym.documented_outcome tier=thorough bounded="pool of 7 tables (4 path + 3 allocatable); tree-shaped sparse pre-state (target path, one neighbour word per path table, garbage in allocatable frames); recursive index 300; page-table indices (255,511,0,256)"
     //@ obligation C01 C01.recursive_unmap_1gib.shape_sym.returns_mapped_frame tier=thorough bounded="pool of 7 tables (4 path + 3 allocatable); tree-shaped sparse pre-state (target path, one neighbour word per path table, garbage in allocatable frames); recursive index 300; page-table indices (255,511,0,256)"
     //@ obligation C01 C01.recursive_unmap_1gib.shape_sym.target_not_mapped_after tier=thorough bounded="pool of 7 tables (4 path + 3 allocatable); tree-shaped sparse pre-state (target path, one neighbour word per path table, garbage in allocatable frames); recursive index 300; page-table indices (255,511,0,256)"
+    //@ obligation C11 C11.recursive_unmap_1gib.shape_sym.target_not_mapped_after tier=thorough bounded="pool of 7 tables (4 path + 3 allocatable); tree-shaped sparse pre-state (target path, one neighbour word per path table, garbage in allocatable frames); recursive index 300; page-table indices (255,511,0,256)"
     //@ obligation C01 C01.recursive_unmap_1gib.shape_sym.other_addresses_unchanged tier=thorough bounded="pool of 7 tables (4 path + 3 allocatable); tree-shaped sparse pre-state (target path, one neighbour word per path table, garbage in allocatable frames); recursive index 300; page-table indices (255,511,0,256)"
+    //@ obligation C11 C11.recursive_unmap_1gib.shape_sym.other_addresses_unchanged tier=thorough bounded="pool of 7 tables (4 path + 3 allocatable); tree-shaped sparse pre-state (target path, one neighbour word per path table, garbage in allocatable frames); recursive index 300; page-table indices (255,511,0,256)"
     //@ obligation C01 C01.recursive_unmap_1gib.shape_sym.result_reports_page tier=thorough bounded="pool of 7 tables (4 path + 3 allocatable); tree-shaped sparse pre-state (target path, one neighbour word per path table, garbage in allocatable frames); recursive index 300; page-table indices (255,511,0,256)"
     //@ obligation C11 C11.recursive_unmap_1gib.shape_sym.token_names_page tier=thorough bounded="pool of 7 tables (4 path + 3 allocatable); tree-shaped sparse pre-state (target path, one neighbour word per path table, garbage in allocatable frames); recursive index 300; page-table indices (255,511,0,256)"
     //@ obligation C02 C02.recursive_unmap_1gib.shape_sym.error_leaves_every_mapping tier=thorough bounded="pool of 7 tables (4 path + 3 allocatable); tree-shaped sparse pre-state (target path, one neighbour word per path table, garbage in allocatable frames); recursive index 300; page-table indices (255,511,0,256)"
@@ -1355,7 +1399,9 @@ mod verif_c01_recursive_step_huge {
     //@ obligation C02 C02.recursive_unmap_1gib.shape_sym.documented_outcome bounded="pool of 7 tables (4 path + 3 allocatable); tree-shaped sparse pre-state (target path, one neighbour word per path table, garbage in allocatable frames); recursive index 300; page-table indices (256,0,510,511)"
     //@ obligation C01 C01.recursive_unmap_1gib.shape_sym.returns_mapped_frame bounded="pool of 7 tables (4 path + 3 allocatable); tree-shaped sparse pre-state (target path, one neighbour word per path table, garbage in allocatable frames); recursive index 300; page-table indices (256,0,510,511)"
     //@ obligation C01 C01.recursive_unmap_1gib.shape_sym.target_not_mapped_after bounded="pool of 7 tables (4 path + 3 allocatable); tree-shaped sparse pre-state (target path, one neighbour word per path table, garbage in allocatable frames); recursive index 300; page-table indices (256,0,510,511)"
+    //@ obligation C11 C11.recursive_unmap_1gib.shape_sym.target_not_mapped_after bounded="pool of 7 tables (4 path + 3 allocatable); tree-shaped sparse pre-state (target path, one neighbour word per path table, garbage in allocatable frames); recursive index 300; page-table indices (256,0,510,511)"
     //@ obligation C01 C01.recursive_unmap_1gib.shape_sym.other_addresses_unchanged bounded="pool of 7 tables (4 path + 3 allocatable); tree-shaped sparse pre-state (target path, one neighbour word per path table, garbage in allocatable frames); recursive index 300; page-table indices (256,0,510,511)"
+    //@ obligation C11 C11.recursive_unmap_1gib.shape_sym.other_addresses_unchanged bounded="pool of 7 tables (4 path + 3 allocatable); tree-shaped sparse pre-state (target path, one neighbour word per path table, garbage in allocatable frames); recursive index 300; page-table indices (256,0,510,511)"
     //@ obligation C01 C01.recursive_unmap_1gib.shape_sym.result_reports_page bounded="pool of 7 tables (4 path + 3 allocatable); tree-shaped sparse pre-state (target path, one neighbour word per path table, garbage in allocatable frames); recursive index 300; page-table indices (256,0,510,511)"
     //@ obligation C11 C11.recursive_unmap_1gib.shape_sym.token_names_page bounded="pool of 7 tables (4 path + 3 allocatable); tree-shaped sparse pre-state (target path, one neighbour word per path table, garbage in allocatable frames); recursive index 300; page-table indices (256,0,510,511)"
     //@ obligation C02 C02.recursive_unmap_1gib.shape_sym.error_leaves_every_mapping bounded="pool of 7 tables (4 path + 3 allocatable); tree-shaped sparse pre-state (target path, one neighbour word per path table, garbage in allocatable frames); recursive index 300; page-table indices (256,0,510,511)"
@@ -1494,8 +1540,11 @@ mod verif_c01_recursive_step_huge {
 
     //@ obligation C02 C02.recursive_update_flags_2mib.shape_p2_huge.documented_outcome bounded="pool of 7 tables (4 path + 3 allocatable); tree-shaped sparse pre-state (target path, one neighbour word per path table, garbage in allocatable frames); recursive index 300; page-table indices (255,511,0,256)"
     //@ obligation C01 C01.recursive_update_flags_2mib.shape_p2_huge.target_keeps_frame_and_size bounded="pool of 7 tables (4 path + 3 allocatable); tree-shaped sparse pre-state (target path, one neighbour word per path table, garbage in allocatable frames); recursive index 300; page-table indices (255,511,0,256)"
+    //@ obligation C11 C11.recursive_update_flags_2mib.shape_p2_huge.target_keeps_frame_and_size bounded="pool of 7 tables (4 path + 3 allocatable); tree-shaped sparse pre-state (target path, one neighbour word per path table, garbage in allocatable frames); recursive index 300; page-table indices (255,511,0,256)"
     //@ obligation C01 C01.recursive_update_flags_2mib.shape_p2_huge.target_leaf_flags_replaced bounded="pool of 7 tables (4 path + 3 allocatable); tree-shaped sparse pre-state (target path, one neighbour word per path table, garbage in allocatable frames); recursive index 300; page-table indices (255,511,0,256)"
+    //@ obligation C11 C11.recursive_update_flags_2mib.shape_p2_huge.target_leaf_flags_replaced bounded="pool of 7 tables (4 path + 3 allocatable); tree-shaped sparse pre-state (target path, one neighbour word per path table, garbage in allocatable frames); recursive index 300; page-table indices (255,511,0,256)"
     //@ obligation C01 C01.recursive_update_flags_2mib.shape_p2_huge.other_addresses_unchanged bounded="pool of 7 tables (4 path + 3 allocatable); tree-shaped sparse pre-state (target path, one neighbour word per path table, garbage in allocatable frames); recursive index 300; page-table indices (255,511,0,256)"
+    //@ obligation C11 C11.recursive_update_flags_2mib.shape_p2_huge.other_addresses_unchanged bounded="pool of 7 tables (4 path + 3 allocatable); tree-shaped sparse pre-state (target path, one neighbour word per path table, garbage in allocatable frames); recursive index 300; page-table indices (255,511,0,256)"
     //@ obligation C01 C01.recursive_update_flags_2mib.shape_p2_huge.result_reports_page bounded="pool of 7 tables (4 path + 3 allocatable); tree-shaped sparse pre-state (target path, one neighbour word per path table, garbage in allocatable frames); recursive index 300; page-table indices (255,511,0,256)"
     //@ obligation C11 C11.recursive_update_flags_2mib.shape_p2_huge.token_names_page bounded="pool of 7 tables (4 path + 3 allocatable); tree-shaped sparse pre-state (target path, one neighbour word per path table, garbage in allocatable frames); recursive index 300; page-table indices (255,511,0,256)"
     //@ obligation C09 C09.recursive_update_flags_2mib.shape_p2_huge.only_dictated_slots_change bounded="pool of 7 tables (4 path + 3 allocatable); tree-shaped sparse pre-state (target path, one neighbour word per path table, garbage in allocatable frames); recursive index 300; page-table indices (255,511,0,256)"
@@ -1513,8 +1562,11 @@ mod verif_c01_recursive_step_huge {
 
     //@ obligation C02 C02.recursive_update_flags_2mib.shape_p2_huge.documented_outcome tier=thorough bounded="pool of 7 tables (4 path + 3 allocatable); tree-shaped sparse pre-state (target path, one neighbour word per path table, garbage in allocatable frames); recursive index 300; page-table indices (256,0,510,511)"
     //@ obligation C01 C01.recursive_update_flags_2mib.shape_p2_huge.target_keeps_frame_and_size tier=thorough bounded="pool of 7 tables (4 path + 3 allocatable); tree-shaped sparse pre-state (target path, one neighbour word per path table, garbage in allocatable frames); recursive index 300; page-table indices (256,0,510,511)"
+    //@ obligation C11 C11.recursive_update_flags_2mib.shape_p2_huge.target_keeps_frame_and_size tier=thorough bounded="pool of 7 tables (4 path + 3 allocatable); tree-shaped sparse pre-state (target path, one neighbour word per path table, garbage in allocatable frames); recursive index 300; page-table indices (256,0,510,511)"
     //@ obligation C01 C01.recursive_update_flags_2mib.shape_p2_huge.target_leaf_flags_replaced tier=thorough bounded="pool of 7 tables (4 path + 3 allocatable); tree-shaped sparse pre-state (target path, one neighbour word per path table, garbage in allocatable frames); recursive index 300; page-table indices (256,0,510,511)"
+    //@ obligation C11 C11.recursive_update_flags_2mib.shape_p2_huge.target_leaf_flags_replaced tier=thorough bounded="pool of 7 tables (4 path + 3 allocatable); tree-shaped sparse pre-state (target path, one neighbour word per path table, garbage in allocatable frames); recursive index 300; page-table indices (256,0,510,511)"
     //@ obligation C01 C01.recursive_update_flags_2mib.shape_p2_huge.other_addresses_unchanged tier=thorough bounded="pool of 7 tables (4 path + 3 allocatable); tree-shaped sparse pre-state (target path, one neighbour word per path table, garbage in allocatable frames); recursive index 300; page-table indices (256,0,510,511)"
+    //@ obligation C11 C11.recursive_update_flags_2mib.shape_p2_huge.other_addresses_unchanged tier=thorough bounded="pool of 7 tables (4 path + 3 allocatable); tree-shaped sparse pre-state (target path, one neighbour word per path table, garbage in allocatable frames); recursive index 300; page-table indices (256,0,510,511)"
     //@ obligation C01 C01.recursive_update_flags_2mib.shape_p2_huge.result_reports_page tier=thorough bounded="pool of 7 tables (4 path + 3 allocatable); tree-shaped sparse pre-state (target path, one neighbour word per path table, garbage in allocatable frames); recursive index 300; page-table indices (256,0,510,511)"
     //@ obligation C11 C11.recursive_update_flags_2mib.shape_p2_huge.token_names_page tier=thorough bounded="pool of 7 tables (4 path + 3 allocatable); tree-shaped sparse pre-state (target path, one neighbour word per path table, garbage in allocatable frames); recursive index 300; page-table indices (256,0,510,511)"
     //@ obligation C09 C09.recursive_update_flags_2mib.shape_p2_huge.only_dictated_slots_change tier=thorough bounded="pool of 7 tables (4 path + 3 allocatable); tree-shaped sparse pre-state (target path, one neighbour word per path table, garbage in allocatable frames); recursive index 300; page-table indices (256,0,510,511)"
@@ -1564,8 +1616,11 @@ mod verif_c01_recursive_step_huge {
 
     //@ obligation C02 C02.recursive_update_flags_2mib.shape_sym.documented_outcome tier=thorough bounded="pool of 7 tables (4 path + 3 allocatable); tree-shaped sparse pre-state (target path, one neighbour word per path table, garbage in allocatable frames); recursive index 300; page-table indices (255,511,0,256)"
     //@ obligation C01 C01.recursive_update_flags_2mib.shape_sym.target_keeps_frame_and_size tier=thorough bounded="pool of 7 tables (4 path + 3 allocatable); tree-shaped sparse pre-state (target path, one neighbour word per path table, garbage in allocatable frames); recursive index 300; page-table indices (255,511,0,256)"
+    //@ obligation C11 C11.recursive_update_flags_2mib.shape_sym.target_keeps_frame_and_size tier=thorough bounded="pool of 7 tables (4 path + 3 allocatable); tree-shaped sparse pre-state (target path, one neighbour word per path table, garbage in allocatable frames); recursive index 300; page-table indices (255,511,0,256)"
     //@ obligation C01 C01.recursive_update_flags_2mib.shape_sym.target_leaf_flags_replaced tier=thorough bounded="pool of 7 tables (4 path + 3 allocatable); tree-shaped sparse pre-state (target path, one neighbour word per path table, garbage in allocatable frames); recursive index 300; page-table indices (255,511,0,256)"
+    //@ obligation C11 C11.recursive_update_flags_2mib.shape_sym.target_leaf_flags_replaced tier=thorough bounded="pool of 7 tables (4 path + 3 allocatable); tree-shaped sparse pre-state (target path, one neighbour word per path table, garbage in allocatable frames); recursive index 300; page-table indices (255,511,0,256)"
     //@ obligation C01 C01.recursive_update_flags_2mib.shape_sym.other_addresses_unchanged tier=thorough bounded="pool of 7 tables (4 path + 3 allocatable); tree-shaped sparse pre-state (target path, one neighbour word per path table, garbage in allocatable frames); recursive index 300; page-table indices (255,511,0,256)"
+    //@ obligation C11 C11.recursive_update_flags_2mib.shape_sym.other_addresses_unchanged tier=thorough bounded="pool of 7 tables (4 path + 3 allocatable); tree-shaped sparse pre-state (target path, one neighbour word per path table, garbage in allocatable frames); recursive index 300; page-table indices (255,511,0,256)"
     //@ obligation C01 C01.recursive_update_flags_2mib.shape_sym.result_reports_page tier=thorough bounded="pool of 7 tables (4 path + 3 allocatable); tree-shaped sparse pre-state (target path, one neighbour word per path table, garbage in allocatable frames); recursive index 300; page-table indices (255,511,0,256)"
     //@ obligation C11 C11.recursive_update_flags_2mib.shape_sym.token_names_page tier=thorough bounded="pool of 7 tables (4 path + 3 allocatable); tree-shaped sparse pre-state (target path, one neighbour word per path table, garbage in allocatable frames); recursive index 300; page-table indices (255,511,0,256)"
     //@ obligation C02 C02.recursive_update_flags_2mib.shape_sym.error_leaves_every_mapping tier=thorough bounded="pool of 7 tables (4 path + 3 allocatable); tree-shaped sparse pre-state (target path, one neighbour word per path table, garbage in allocatable frames); recursive index 300; page-table indices (255,511,0,256)"
@@ -1584,8 +1639,11 @@ mod verif_c01_recursive_step_huge {
 
     //@ obligation C02 C02.recursive_update_flags_2mib.shape_sym.documented_outcome bounded="pool of 7 tables (4 path + 3 allocatable); tree-shaped sparse pre-state (target path, one neighbour word per path table, garbage in allocatable frames); recursive index 300; page-table indices (256,0,510,511)"
     //@ obligation C01 C01.recursive_update_flags_2mib.shape_sym.target_keeps_frame_and_size bounded="pool of 7 tables (4 path + 3 allocatable); tree-shaped sparse pre-state (target path, one neighbour word per path table, garbage in allocatable frames); recursive index 300; page-table indices (256,0,510,511)"
+    //@ obligation C11 C11.recursive_update_flags_2mib.shape_sym.target_keeps_frame_and_size bounded="pool of 7 tables (4 path + 3 allocatable); tree-shaped sparse pre-state (target path, one neighbour word per path table, garbage in allocatable frames); recursive index 300; page-table indices (256,0,510,511)"
     //@ obligation C01 C01.recursive_update_flags_2mib.shape_sym.target_leaf_flags_replaced bounded="pool of 7 tables (4 path + 3 allocatable); tree-shaped sparse pre-state (target path, one neighbour word per path table, garbage in allocatable frames); recursive index 300; page-table indices (256,0,510,511)"
+    //@ obligation C11 C11.recursive_update_flags_2mib.shape_sym.target_leaf_flags_replaced bounded="pool of 7 tables (4 path + 3 allocatable); tree-shaped sparse pre-state (target path, one neighbour word per path table, garbage in allocatable frames); recursive index 300; page-table indices (256,0,510,511)"
     //@ obligation C01 C01.recursive_update_flags_2mib.shape_sym.other_addresses_unchanged bounded="pool of 7 tables (4 path + 3 allocatable); tree-shaped sparse pre-state (target path, one neighbour word per path table, garbage in allocatable frames); recursive index 300; page-table indices (256,0,510,511)"
+    //@ obligation C11 C11.recursive_update_flags_2mib.shape_sym.other_addresses_unchanged bounded="pool of 7 tables (4 path + 3 allocatable); tree-shaped sparse pre-state (target path, one neighbour word per path table, garbage in allocatable frames); recursive index 300; page-table indices (256,0,510,511)"
     //@ obligation C01 C01.recursive_update_flags_2mib.shape_sym.result_reports_page bounded="pool of 7 tables (4 path + 3 allocatable); tree-shaped sparse pre-state (target path, one neighbour word per path table, garbage in allocatable frames); recursive index 300; page-table indices (256,0,510,511)"
     //@ obligation C11 C11.recursive_update_flags_2mib.shape_sym.token_names_page bounded="pool of 7 tables (4 path + 3 allocatable); tree-shaped sparse pre-state (target path, one neighbour word per path table, garbage in allocatable frames); recursive index 300; page-table indices (256,0,510,511)"
     //@ obligation C02 C02.recursive_update_flags_2mib.shape_sym.error_leaves_every_mapping bounded="pool of 7 tables (4 path + 3 allocatable); tree-shaped sparse pre-state (target path, one neighbour word per path table, garbage in allocatable frames); recursive index 300; page-table indices (256,0,510,511)"
@@ -1662,8 +1720,11 @@ mod verif_c01_recursive_step_huge {
 
     //@ obligation C02 C02.recursive_update_flags_1gib.shape_p3_huge.documented_outcome bounded="pool of 7 tables (4 path + 3 allocatable); tree-shaped sparse pre-state (target path, one neighbour word per path table, garbage in allocatable frames); recursive index 300; page-table indices (255,511,0,256)"
     //@ obligation C01 C01.recursive_update_flags_1gib.shape_p3_huge.target_keeps_frame_and_size bounded="pool of 7 tables (4 path + 3 allocatable); tree-shaped sparse pre-state (target path, one neighbour word per path table, garbage in allocatable frames); recursive index 300; page-table indices (255,511,0,256)"
+    //@ obligation C11 C11.recursive_update_flags_1gib.shape_p3_huge.target_keeps_frame_and_size bounded="pool of 7 tables (4 path + 3 allocatable); tree-shaped sparse pre-state (target path, one neighbour word per path table, garbage in allocatable frames); recursive index 300; page-table indices (255,511,0,256)"
     //@ obligation C01 C01.recursive_update_flags_1gib.shape_p3_huge.target_leaf_flags_replaced bounded="pool of 7 tables (4 path + 3 allocatable); tree-shaped sparse pre-state (target path, one neighbour word per path table, garbage in allocatable frames); recursive index 300; page-table indices (255,511,0,256)"
+    //@ obligation C11 C11.recursive_update_flags_1gib.shape_p3_huge.target_leaf_flags_replaced bounded="pool of 7 tables (4 path + 3 allocatable); tree-shaped sparse pre-state (target path, one neighbour word per path table, garbage in allocatable frames); recursive index 300; page-table indices (255,511,0,256)"
     //@ obligation C01 C01.recursive_update_flags_1gib.shape_p3_huge.other_addresses_unchanged bounded="pool of 7 tables (4 path + 3 allocatable); tree-shaped sparse pre-state (target path, one neighbour word per path table, garbage in allocatable frames); recursive index 300; page-table indices (255,511,0,256)"
+    //@ obligation C11 C11.recursive_update_flags_1gib.shape_p3_huge.other_addresses_unchanged bounded="pool of 7 tables (4 path + 3 allocatable); tree-shaped sparse pre-state (target path, one neighbour word per path table, garbage in allocatable frames); recursive index 300; page-table indices (255,511,0,256)"
     //@ obligation C01 C01.recursive_update_flags_1gib.shape_p3_huge.result_reports_page bounded="pool of 7 tables (4 path + 3 allocatable); tree-shaped sparse pre-state (target path, one neighbour word per path table, garbage in allocatable frames); recursive index 300; page-table indices (255,511,0,256)"
     //@ obligation C11 C11.recursive_update_flags_1gib.shape_p3_huge.token_names_page bounded="pool of 7 tables (4 path + 3 allocatable); tree-shaped sparse pre-state (target path, one neighbour word per path table, garbage in allocatable frames); recursive index 300; page-table indices (255,511,0,256)"
     //@ obligation C09 C09.recursive_update_flags_1gib.shape_p3_huge.only_dictated_slots_change bounded="pool of 7 tables (4 path + 3 allocatable); tree-shaped sparse pre-state (target path, one neighbour word per path table, garbage in allocatable frames); recursive index 300; page-table indices (255,511,0,256)"
@@ -1681,8 +1742,11 @@ mod verif_c01_recursive_step_huge {
 
     //@ obligation C02 C02.recursive_update_flags_1gib.shape_p3_huge.documented_outcome tier=thorough bounded="pool of 7 tables (4 path + 3 allocatable); tree-shaped sparse pre-state (target path, one neighbour word per path table, garbage in allocatable frames); recursive index 300; page-table indices (256,0,510,511)"
     //@ obligation C01 C01.recursive_update_flags_1gib.shape_p3_huge.target_keeps_frame_and_size tier=thorough bounded="pool of 7 tables (4 path + 3 allocatable); tree-shaped sparse pre-state (target path, one neighbour word per path table, garbage in allocatable frames); recursive index 300; page-table indices (256,0,510,511)"
+    //@ obligation C11 C11.recursive_update_flags_1gib.shape_p3_huge.target_keeps_frame_and_size tier=thorough bounded="pool of 7 tables (4 path + 3 allocatable); tree-shaped sparse pre-state (target path, one neighbour word per path table, garbage in allocatable frames); recursive index 300; page-table indices (256,0,510,511)"
     //@ obligation C01 C01.recursive_update_flags_1gib.shape_p3_huge.target_leaf_flags_replaced tier=thorough bounded="pool of 7 tables (4 path + 3 allocatable); tree-shaped sparse pre-state (target path, one neighbour word per path table, garbage in allocatable frames); recursive index 300; page-table indices (256,0,510,511)"
+    //@ obligation C11 C11.recursive_update_flags_1gib.shape_p3_huge.target_leaf_flags_replaced tier=thorough bounded="pool of 7 tables (4 path + 3 allocatable); tree-shaped sparse pre-state (target path, one neighbour word per path table, garbage in allocatable frames); recursive index 300; page-table indices (256,0,510,511)"
     //@ obligation C01 C01.recursive_update_flags_1gib.shape_p3_huge.other_addresses_unchanged tier=thorough bounded="pool of 7 tables (4 path + 3 allocatable); tree-shaped sparse pre-state (target path, one neighbour word per path table, garbage in allocatable frames); recursive index 300; page-table indices (256,0,510,511)"
+    //@ obligation C11 C11.recursive_update_flags_1gib.shape_p3_huge.other_addresses_unchanged tier=thorough bounded="pool of 7 tables (4 path + 3 allocatable); tree-shaped sparse pre-state (target path, one neighbour word per path table, garbage in allocatable frames); recursive index 300; page-table indices (256,0,510,511)"
     //@ obligation C01 C01.recursive_update_flags_1gib.shape_p3_huge.result_reports_page tier=thorough bounded="pool of 7 tables (4 path + 3 allocatable); tree-shaped sparse pre-state (target path, one neighbour word per path table, garbage in allocatable frames); recursive index 300; page-table indices (256,0,510,511)"
     //@ obligation C11 C11.recursive_update_flags_1gib.shape_p3_huge.token_names_page tier=thorough bounded="pool of 7 tables (4 path + 3 allocatable); tree-shaped sparse pre-state (target path, one neighbour word per path table, garbage in allocatable frames); recursive index 300; page-table indices (256,0,510,511)"
     //@ obligation C09 C09.recursive_update_flags_1gib.shape_p3_huge.only_dictated_slots_change tier=thorough bounded="pool of 7 tables (4 path + 3 allocatable); tree-shaped sparse pre-state (target path, one neighbour word per path table, garbage in allocatable frames); recursive index 300; page-table indices (256,0,510,511)"
@@ -1732,8 +1796,11 @@ mod verif_c01_recursive_step_huge {
 
     //@ obligation C02 C02.recursive_update_flags_1gib.shape_sym.documented_outcome tier=thorough bounded="pool of 7 tables (4 path + 3 allocatable); tree-shaped sparse pre-state (target path, one neighbour word per path table, garbage in allocatable frames); recursive index 300; page-table indices (255,511,0,256)"
     //@ obligation C01 C01.recursive_update_flags_1gib.shape_sym.target_keeps_frame_and_size tier=thorough bounded="pool of 7 tables (4 path + 3 allocatable); tree-shaped sparse pre-state (target path, one neighbour word per path table, garbage in allocatable frames); recursive index 300; page-table indices (255,511,0,256)"
+    //@ obligation C11 C11.recursive_update_flags_1gib.shape_sym.target_keeps_frame_and_size tier=thorough bounded="pool of 7 tables (4 path + 3 allocatable); tree-shaped sparse pre-state (target path, one neighbour word per path table, garbage in allocatable frames); recursive index 300; page-table indices (255,511,0,256)"
     //@ obligation C01 C01.recursive_update_flags_1gib.shape_sym.target_leaf_flags_replaced tier=thorough bounded="pool of 7 tables (4 path + 3 allocatable); tree-shaped sparse pre-state (target path, one neighbour word per path table, garbage in allocatable frames); recursive index 300; page-table indices (255,511,0,256)"
+    //@ obligation C11 C11.recursive_update_flags_1gib.shape_sym.target_leaf_flags_replaced tier=thorough bounded="pool of 7 tables (4 path + 3 allocatable); tree-shaped sparse pre-state (target path, one neighbour word per path table, garbage in allocatable frames); recursive index 300; page-table indices (255,511,0,256)"
     //@ obligation C01 C01.recursive_update_flags_1gib.shape_sym.other_addresses_unchanged tier=thorough bounded="pool of 7 tables (4 path + 3 allocatable); tree-shaped sparse pre-state (target path, one neighbour word per path table, garbage in allocatable frames); recursive index 300; page-table indices (255,511,0,256)"
+    //@ obligation C11 C11.recursive_update_flags_1gib.shape_sym.other_addresses_unchanged tier=thorough bounded="pool of 7 tables (4 path + 3 allocatable); tree-shaped sparse pre-state (target path, one neighbour word per path table, garbage in allocatable frames); recursive index 300; page-table indices (255,511,0,256)"
     //@ obligation C01 C01.recursive_update_flags_1gib.shape_sym.result_reports_page tier=thorough bounded="pool of 7 tables (4 path + 3 allocatable); tree-shaped sparse pre-state (target path, one neighbour word per path table, garbage in allocatable frames); recursive index 300; page-table indices (255,511,0,256)"
     //@ obligation C11 C11.recursive_update_flags_1gib.shape_sym.token_names_page tier=thorough bounded="pool of 7 tables (4 path + 3 allocatable); tree-shaped sparse pre-state (target path, one neighbour word per path table, garbage in allocatable frames); recursive index 300; page-table indices (255,511,0,256)"
     //@ obligation C02 C02.recursive_update_flags_1gib.shape_sym.error_leaves_every_mapping tier=thorough bounded="pool of 7 tables (4 path + 3 allocatable); tree-shaped sparse pre-state (target path, one neighbour word per path table, garbage in allocatable frames); recursive index 300; page-table indices (255,511,0,256)"
@@ -1752,8 +1819,11 @@ mod verif_c01_recursive_step_huge {
 
     //@ obligation C02 C02.recursive_update_flags_1gib.shape_sym.documented_outcome bounded="pool of 7 tables (4 path + 3 allocatable); tree-shaped sparse pre-state (target path, one neighbour word per path table, garbage in allocatable frames); recursive index 300; page-table indices (256,0,510,511)"
     //@ obligation C01 C01.recursive_update_flags_1gib.shape_sym.target_keeps_frame_and_size bounded="pool of 7 tables (4 path + 3 allocatable); tree-shaped sparse pre-state (target path, one neighbour word per path table, garbage in allocatable frames); recursive index 300; page-table indices (256,0,510,511)"
+    //@ obligation C11 C11.recursive_update_flags_1gib.shape_sym.target_keeps_frame_and_size bounded="pool of 7 tables (4 path + 3 allocatable); tree-shaped sparse pre-state (target path, one neighbour word per path table, garbage in allocatable frames); recursive index 300; page-table indices (256,0,510,511)"
     //@ obligation C01 C01.recursive_update_flags_1gib.shape_sym.target_leaf_flags_replaced bounded="pool of 7 tables (4 path + 3 allocatable); tree-shaped sparse pre-state (target path, one neighbour word per path table, garbage in allocatable frames); recursive index 300; page-table indices (256,0,510,511)"
+    //@ obligation C11 C11.recursive_update_flags_1gib.shape_sym.target_leaf_flags_replaced bounded="pool of 7 tables (4 path + 3 allocatable); tree-shaped sparse pre-state (target path, one neighbour word per path table, garbage in allocatable frames); recursive index 300; page-table indices (256,0,510,511)"
     //@ obligation C01 C01.recursive_update_flags_1gib.shape_sym.other_addresses_unchanged bounded="pool of 7 tables (4 path + 3 allocatable); tree-shaped sparse pre-state (target path, one neighbour word per path table, garbage in allocatable frames); recursive index 300; page-table indices (256,0,510,511)"
+    //@ obligation C11 C11.recursive_update_flags_1gib.shape_sym.other_addresses_unchanged bounded="pool of 7 tables (4 path + 3 allocatable); tree-shaped sparse pre-state (target path, one neighbour word per path table, garbage in allocatable frames); recursive index 300; page-table indices (256,0,510,511)"
     //@ obligation C01 C01.recursive_update_flags_1gib.shape_sym.result_reports_page bounded="pool of 7 tables (4 path + 3 allocatable); tree-shaped sparse pre-state (target path, one neighbour word per path table, garbage in allocatable frames); recursive index 300; page-table indices (256,0,510,511)"
     //@ obligation C11 C11.recursive_update_flags_1gib.shape_sym.token_names_page bounded="pool of 7 tables (4 path + 3 allocatable); tree-shaped sparse pre-state (target path, one neighbour word per path table, garbage in allocatable frames); recursive index 300; page-table indices (256,0,510,511)"
     //@ obligation C02 C02.recursive_update_flags_1gib.shape_sym.error_leaves_every_mapping bounded="pool of 7 tables (4 path + 3 allocatable); tree-shaped sparse pre-state (target path, one neighbour word per path table, garbage in allocatable frames); recursive index 300; page-table indices (256,0,510,511)"
